@@ -613,7 +613,10 @@ func (r *chunkReader) ReadAt(data []byte, off int64) (readBytes int, err error) 
 			}
 		}
 
-		readBytes += copy(data[readBytes:], buffer.Bytes()[offset:])
+		if leaf := buffer.Bytes(); offset < int64(len(leaf)) {
+			// an offset past the end of the (last, partial) leaf reads nothing
+			readBytes += copy(data[readBytes:], leaf[offset:])
+		}
 		buffer.Unpin()
 
 		if !ok && !fromCache {
